@@ -225,9 +225,9 @@ func newC06Inst(cfg *c06Cfg) *c06Inst {
 	in.mValidated = cfg.pers == protocol.PerspectiveClient || cfg.addrValidated
 	in.fixGen()
 	for _, op := range cfg.prefix {
-		// an oracle failure inside the prefix is a verdict, not a harness error: it is
-		// reported by the single enabled operation "prefix"
-		if f := in.Apply(op); f != nil {
+		// an oracle failure (or a panic of the code under test) inside the prefix is a
+		// verdict, not a harness error: it is reported by the single enabled operation "prefix"
+		if f := in.applyPrefixOp(op); f != nil {
 			in.prefixFail = &explore.Fail{Key: f.Key + ":in-prefix", What: fmt.Sprintf("in the part's prefix %v at %v: %s", cfg.prefix, op, f.What)}
 			break
 		}
@@ -235,6 +235,18 @@ func newC06Inst(cfg *c06Cfg) *c06Inst {
 	in.nSends, in.nAcks, in.nTicks, in.nTimeouts = 0, 0, 0, 0
 	in.outcome = ""
 	return in
+}
+
+func (in *c06Inst) applyPrefixOp(op explore.Op) (f *explore.Fail) {
+	defer func() {
+		if x := recover(); x != nil {
+			if _, isString := x.(string); !isString {
+				panic(x) // explore.Must and runtime errors keep their meaning
+			}
+			f = explore.Failf("panic:"+c06StripDigits(fmt.Sprint(x)), "panic: %v", x)
+		}
+	}()
+	return in.Apply(op)
 }
 
 // fixGen resolves the generator's random draw: the real skippingPacketNumberGenerator picks
